@@ -22,6 +22,15 @@ int drv_set(void) {
       char *v = unhex(t[1]);
       add(v, set, trace);
       free(v);
+    } else if (!strcmp(t[0], "addf")) {
+      /* addf <k> <v>: add with the k-th allocation inside it failing (if it makes that many) */
+      char *v = unhex(t[2]);
+      W.alloc_fail_at = W.nallocs + atol(t[1]);
+      add(v, set, trace);
+      W.alloc_fail_at = -1;
+      printf(ok(trace) ? "addf ok\n" : "addf err\n");
+      clear_trace(trace);
+      free(v);
     } else if (!strcmp(t[0], "pop")) {
       char *v = unhex(t[1]);
       struct buffer_view *view = create_buffer_view(v, trace);
